@@ -191,7 +191,7 @@ func doRegistered() (string, bool) {
 // blindly that a violation crashes the process inside a goroutine the manager
 // starts: Updaters() returns the updaters of the set, each once, nothing else.
 func preflight(r *hx.Run) bool {
-	w := &world{r: r, sc: &scenario{}, lastName: map[int64]int{}}
+	w := &world{r: r, sc: &scenario{}}
 	set := driver.NewUpdaterSet()
 	var us []driver.Updater
 	for i := 0; i < 3; i++ {
